@@ -49,9 +49,18 @@ def K(a):
 GUID_REV = {G(a): a for a in AGUIDS + (FOREIGN,)}
 
 
-def key_file_body(a, pretty=True):
+def key_file_body(a, pretty=True, inc=0):
     d = {"authorizationScheme": "Azure-HMAC-SHA256", "guid": G(a), "issued": "2021-05-05T 12:00:00Z", "key": K(a)}
+    if inc:
+        d["incarnationId"] = inc
     return json.dumps(d, indent=2 if pretty else None)
+
+
+def issue_entry(a, inc_map):
+    e = {"guid": G(a), "key": K(a)}
+    if (inc_map or {}).get(a):
+        e["incarnationId"] = inc_map[a]
+    return e
 
 
 # ---------------------------------------------------------------------------------------------------------------
@@ -223,12 +232,17 @@ def abs_dir(dirinfo):
     return final, tmp, stray
 
 
-def abs_proj(p):
+def abs_proj(p, inc_map=None):
     m = p["mem"]
     kg = m.get("keyGuid")
     key = "none" if kg is None else GUID_REV.get(kg, "?" + str(kg))
     final, tmp, stray = abs_dir(p["dir"])
-    obs = {"key": key, "keyOk": bool(key in AGUIDS and m.get("keyValue") == K(key)) if key != "none" else True,
+    # the key in use is the one the host issued under that guid: value and incarnation number
+    key_ok = True
+    if key != "none":
+        key_ok = bool(key in AGUIDS and m.get("keyValue") == K(key)
+                      and (m.get("keyIncarnation") or 0) == ((inc_map or {}).get(key) or 0))
+    obs = {"key": key, "keyOk": key_ok,
            "state": abs_state(m["state"]),
            "ruleId": {ep: cid_rev(ep, m["ruleId"][ep]) for ep in EPS},
            "rules": {ep: abs_item(ep, m["rules"][ep]) for ep in EPS},
@@ -391,7 +405,7 @@ def init_row(doc, scenario="fresh", named=None):
     """first row of a run: the host's and the key store's state before the agent starts"""
     final = {a: "none" for a in AGUIDS}
     r = {"e": "run", "doc": doc, "named": "none", "latched": "none", "issued": [], "dir": "absent", "final": final,
-         "damaged": [], "scenario": scenario}
+         "damaged": [], "scenario": scenario, "inc": {a: 0 for a in AGUIDS}}
     if scenario == "haskey":
         final["g1"] = "key"
         r.update(named="g1", latched="g1", issued=["g1"], dir="acled")
@@ -495,10 +509,28 @@ def mutate_doc(d, rnd):
     return d
 
 
+def rand_incarnations(rnd):
+    """incarnation numbers of the keys the host will hand out: absent, growing, shrinking (a counter that restarted),
+    equal, mixed"""
+    k = rnd.choice(["absent", "up", "down", "equal", "mixed", "mixed"])
+    if k == "absent":
+        v = [0, 0, 0, 0]
+    elif k == "up":
+        v = [1, 2, 3, 4]
+    elif k == "down":
+        v = [9, 7, 4, 1]
+    elif k == "equal":
+        v = [3, 3, 3, 3]
+    else:
+        v = [rnd.choice([0, 1, 2, 5]) for _ in range(4)]
+    return dict(zip(AGUIDS, v))
+
+
 def random_history(rnd, n_polls=None):
     sc = rnd.choice(["fresh", "fresh", "haskey", "unreadable", "rotated"])
     d = rand_doc(rnd)
     rows = [init_row(d, sc, named=rnd.choice([FOREIGN, "none"]))]
+    rows[0]["inc"] = rand_incarnations(rnd)
     n = n_polls or rnd.randint(4, 9)
     guids = list(AGUIDS)
     for k in range(n):
@@ -506,7 +538,7 @@ def random_history(rnd, n_polls=None):
         if not tail and rnd.random() < 0.45:
             d = mutate_doc(d, rnd)
             rows.append({"e": "reconf", "doc": d})
-        if not tail and rnd.random() < 0.08:
+        if not tail and rnd.random() < 0.12:
             rows.append({"e": "rotate", "named": rnd.choice(["none", FOREIGN])})
         if not tail and rnd.random() < 0.06:
             rows.append({"e": "crash"})
@@ -577,6 +609,34 @@ def corner_histories(rnd):
              concretise_poll(poll_row(g="g2"), rnd), {"e": "reconf", "doc": d1}, concretise_poll(poll_row(status="fail", g="g2"), rnd),
              {"e": "crash"}, concretise_poll(poll_row(g="g2"), rnd), {"e": "reconf", "doc": d2},
              concretise_poll(poll_row(g="g2"), rnd), concretise_poll(poll_row(g="g2"), rnd), {"e": "end"}])
+    # (seed class c) the reported channel state changes in a poll whose key step fails once; clean polls follow
+    P = lambda **kw: concretise_poll(poll_row(**kw), rnd)
+    v1off = adoc("1.0", "disabled")
+    v2on = adoc("2.0", "enabled", True, ws=item("r2", "enforce"))                      # imds not intercepted
+    v2both = adoc("2.0", "enabled", True, ws=item("r2", "enforce"), imds=item("r1", "audit"))
+    for nm, kw in (("acquire-err", {"acquire": "err"}), ("acquire-malformed", {"acquire": "malformed"}),
+                   ("attest-err", {"attest": "err"}), ("attest-lost", {"attest": "lost"})):
+        out["state-change-with-key-step-failure:%s" % nm] = (
+            [init_row(v1off, "fresh"), P(g="g1"), {"e": "reconf", "doc": v2on}, P(g="g1", **kw), P(g="g2"), P(g="g3"), {"e": "end"}])
+    out["state-change-with-key-step-failure:mode-switch-latch-lost"] = (
+        [init_row(v2both, "haskey"), P(g="g2"), {"e": "rotate", "named": "none"}, {"e": "reconf", "doc": v2on},
+         P(g="g2", attest="err"), P(g="g3"), P(g="g4"), {"e": "end"}])
+    out["state-change-with-key-step-failure:version-switch-rotated"] = (
+        [init_row(v2on, "haskey"), P(g="g2"), {"e": "rotate", "named": FOREIGN}, {"e": "reconf", "doc": adoc("1.0", "wireserverandimds")},
+         P(g="g2", acquire="err"), P(g="g2"), P(g="g3"), {"e": "end"}])
+    # (seed class d) the host loses the latch and the next key carries a lower / equal / no incarnation number
+    v1on = adoc("1.0", "wireserver")
+    for nm, (a, b) in (("down", (5, 1)), ("equal", (3, 3)), ("new-absent", (4, 0)), ("old-absent", (0, 2)), ("up", (1, 5))):
+        h = [init_row(v1on, "fresh"), P(g="g1"), {"e": "rotate", "named": "none"}, P(g="g2"), P(g="g3"), {"e": "end"}]
+        h[0]["inc"] = {"g1": a, "g2": b, "g3": b, "g4": 0}
+        out["rotation-incarnation:%s" % nm] = h
+    h = [init_row(v1on, "haskey"), P(g="g2"), {"e": "rotate", "named": FOREIGN}, P(g="g2"), P(g="g3"), {"e": "end"}]
+    h[0]["inc"] = {"g1": 7, "g2": 2, "g3": 1, "g4": 0}
+    out["rotation-incarnation:restart-with-key-down"] = h
+    h = [init_row(v1on, "fresh"), P(g="g1"), {"e": "rotate", "named": "none"}, P(g="g2"), {"e": "relatch", "g": "g1"}, P(g="g3"),
+         P(g="g3"), {"e": "end"}]
+    h[0]["inc"] = {"g1": 1, "g2": 6, "g3": 0, "g4": 0}
+    out["rotation-incarnation:relatch-older-local-key"] = h
     out["same-id-different-mode"] = (
         [init_row(adoc("2.0", "enabled", True, ws=item("r1", "audit")), "fresh"), concretise_poll(poll_row(g="g1"), rnd),
          {"e": "reconf", "doc": adoc("2.0", "enabled", True, ws=item("r1", "enforce"))}, concretise_poll(poll_row(g="g2"), rnd),
@@ -593,11 +653,12 @@ class Drift(Exception):
 
 def _files_for(init):
     files = {}
+    inc = init.get("inc") or {}
     for a, st in init["final"].items():
         if st == "key":
-            files[G(a) + ".key"] = key_file_body(a)
+            files[G(a) + ".key"] = key_file_body(a, inc=inc.get(a, 0))
         elif st == "corrupt":
-            files[G(a) + ".key"] = key_file_body(a)[:37]
+            files[G(a) + ".key"] = key_file_body(a, inc=inc.get(a, 0))[:37]
     return files
 
 
@@ -639,7 +700,7 @@ def run_history(rg, rows, run_id, req_timeout=8):
             raise util.ToolError("run %s: panic in the agent: %s" % (run_id, json.dumps(p["panics"])[:600]))
         if not p.get("alive", True):
             raise util.ToolError("run %s: the key keeper task ended" % run_id)
-        obs, pol, npol, stray = abs_proj(p)
+        obs, pol, npol, stray = abs_proj(p, init.get("inc"))
         hs = host.call(op="state")
         lat = "none" if hs["latched"] is None else GUID_REV.get(hs["latched"], "?")
         nam = "none" if hs["named"] is None else GUID_REV.get(hs["named"], "?")
@@ -663,6 +724,8 @@ def run_history(rg, rows, run_id, req_timeout=8):
             host.call(op="set", doc=concrete_doc(cur_doc, random.Random(i * 7919 + run_id)))
         elif e == "rotate":
             host.call(op="set", named=(None if row["named"] == "none" else G(row["named"])), latched=None)
+        elif e == "relatch":
+            host.call(op="set", named=G(row["g"]), latched=G(row["g"]))
         elif e == "crash":
             drv.call(op="restart")
             host.call(op="reply", id=rq["id"], action={"a": "drop"})
@@ -690,7 +753,7 @@ def run_history(rg, rows, run_id, req_timeout=8):
                         mid_done = True
                     if k == "acquire":
                         if row["acquire"] == "ok":
-                            host.call(op="set", issue_queue=[{"guid": G(row["g"]), "key": K(row["g"])}])
+                            host.call(op="set", issue_queue=[issue_entry(row["g"], init.get("inc"))])
                         seen["acquire"] = row["acquire"]
                         host.call(op="reply", id=rq["id"], action=how["acquire"])
                     else:
@@ -718,7 +781,7 @@ def run_history(rg, rows, run_id, req_timeout=8):
 def script_rows_for_tlc(rows):
     out = []
     for r in rows:
-        r = {k: v for k, v in r.items() if k not in ("how", "scenario")}
+        r = {k: v for k, v in r.items() if k not in ("how", "scenario", "inc")}
         out.append(r)
     return out
 
